@@ -8,6 +8,8 @@ ids = [json.loads(l)["id"] for l in open(os.path.join(ROOT, "properties.jsonl"))
 checks, na = [], []
 for cid in ids:
     cfg = m.PROPS.get(cid)
+    if cid in getattr(m, 'PENDING', {}):
+        na.append({'property_id': cid, 'reason': m.PENDING[cid]}); continue
     if not cfg or not os.path.exists(os.path.join(ROOT, f"lean/Revm/Props/{cid}.lean")):
         na.append({"property_id": cid, "reason": m.NOT_YET.get(cid, "check not built yet (work in progress; the technique applies, see DESIGN.md section 6)")})
         continue
